@@ -217,7 +217,7 @@ pub fn check(s: &'static dyn Proto, c: &Case, st: &mut Stats, _k: &KnownFindings
 
 pub const BUDGET: Budget = Budget {
     quick: (1000, 500, 200),
-    thorough: (6000, 3000, 1200),
+    thorough: (20000, 10000, 4000),
     shrink: 200,
 };
 
